@@ -18,6 +18,7 @@ ENTRIES = {
     "c01_history": ("NoPanic.Entry", "entry_history"),
     "c01_pow": ("NoPanic.Entry", "entry_pow"),
     "c01_deref": ("NoPanic.Entry", "entry_deref"),
+    "c01_aderef": ("NoPanic.Entry", "entry_aderef"),
 }
 TRUSTED = [
     "modelled, not verified (checked Gallina twins, debug-build overflow semantics): brush-parser/src/word.rs rule number() and "
@@ -62,15 +63,28 @@ KF = {
     "heredoc": "KF-C01-heredoc-empty-tag",
     "bracenest": "KF-C01-brace-backtracking",
     "bracealloc": "KF-C01-brace-range-alloc",
+    "parennest": "KF-C01-paren-backtracking",
 }
 
 # ------------------------------------------------------------------ running the harness (resumable)
 
 
-def _limit():
+def _limit(cpu=600):
+    def f():
+        try:
+            resource.setrlimit(resource.RLIMIT_AS, (3 << 30, 3 << 30))
+            resource.setrlimit(resource.RLIMIT_CPU, (cpu, cpu + 5))
+            resource.setrlimit(resource.RLIMIT_CORE, (0, 0))
+        except Exception:
+            pass
+    return f
+
+
+def _killpg(p):
+    """every child runs in its own session/process group; the whole group is killed when we are done with it"""
     try:
-        resource.setrlimit(resource.RLIMIT_AS, (3 << 30, 3 << 30))
-    except Exception:
+        os.killpg(p.pid, 9)
+    except OSError:
         pass
 
 
@@ -94,12 +108,14 @@ def run_cases(ctx, cases, timeout_ms=10000, shards=None, binary=None):
         while todo:
             lines = [core.enc_case(cases[i]) for i in todo]
             p = subprocess.Popen([binary, "c01"], stdin=subprocess.PIPE, stdout=subprocess.PIPE,
-                                 stderr=subprocess.DEVNULL, env=env, cwd=work, preexec_fn=_limit)
+                                 stderr=subprocess.DEVNULL, env=env, cwd=work, preexec_fn=_limit(600),
+                                 start_new_session=True)
             try:
                 o, _ = p.communicate(("\n".join(lines) + "\n").encode(), timeout=timeout_ms / 1000.0 * len(todo) + 120)
             except subprocess.TimeoutExpired:
-                p.kill()
+                _killpg(p)
                 o, _ = p.communicate()
+            _killpg(p)
             got = o.decode("utf-8", "replace").split("\n")
             if got and got[-1] == "":
                 got = got[:-1]
@@ -440,6 +456,17 @@ def build_cores(ctx, rng):
         c.add(label=script[-60:], model=[("r%d" % cl[1]) if cl[0] == "r" else ("l%d" % cl[1]) for cl in cells],
               code=["sh", script, ""], canon=canon, nontrivial=len(cells) > 2)
     cores.append(c)
+    c = Core("aderef")
+    for (expr, scalars, arrays) in G.aderef_cases(rng, 160 if big else 70):
+        script = G.aderef_script(expr, scalars, arrays, "echo $(( %s ))")
+        fields = [G.aexp_wire(expr), str(len(scalars))] + [G.aexp_wire(x) for x in scalars]
+        for arr in arrays:
+            fields += [str(len(arr))] + [G.aexp_wire(x) for x in arr]
+
+        def canon(r):
+            return canon_sh(r, lambda st, out, err: "V" + out.strip() if st == 0 and out.strip() else "F")
+        c.add(label=script, model=fields, code=["sh", script, ""], canon=canon, nontrivial=len(arrays) > 0)
+    cores.append(c)
     return cores
 
 
@@ -608,25 +635,47 @@ KNOWN_EXPLORE = [
 _CHARHANG = re.compile(r"\{[A-Za-z]\.\.[A-Za-z]\.\.[+-]?(\d+)\}")
 
 
+_OPEN = None
+
+
+def is_open(kid):
+    global _OPEN
+    if _OPEN is None:
+        _OPEN = {f["id"] for f in core.load_known(PID) if f.get("status") == "open"}
+    return kid in _OPEN
+
+
+def prefer_open(kids):
+    """a case may fall into several recorded classes: attribute it to an OPEN one when there is one (a class whose
+    finding is fixed no longer excuses anything: the driver turns it into a plain VIOLATION)"""
+    kids = [k for k in kids if k]
+    for k in kids:
+        if is_open(k):
+            return k
+    return kids[0] if kids else None
+
+
 def classify_panic(script, msg, loc):
     fn = panic_function(loc)
-    for kid, f, frag, pre in KNOWN_EXPLORE:
-        if fn == f and frag in msg and pre(script):
-            return kid, fn
-    return None, fn
+    return prefer_open([kid for kid, f, frag, pre in KNOWN_EXPLORE if fn == f and frag in msg and pre(script)]), fn
 
 
 def known_hang(script):
+    kids = []
     for m in _CHARHANG.finditer(script):
         if int(m.group(1)) >= 2 ** 32:
-            return KF["charseq"]
+            kids.append(KF["charseq"])
     if len(re.findall(r"\bcase\b", script)) >= 12:
-        return KF["casenest"]
+        kids.append(KF["casenest"])
     if re.search(r"""<<-?[ \t]*(''|"")""", script):
-        return KF["heredoc"]
+        kids.append(KF["heredoc"])
     if any(w.count("{") - w.count("}") >= 8 for w in script.split()):
-        return KF["bracenest"]
-    return None
+        kids.append(KF["bracenest"])
+    if re.search(r"(\(\s*){20,}", script):
+        kids.append(KF["parennest"])
+    if G.too_big(script):
+        kids.append(KF["bracealloc"])     # the eager collect() of a huge range: allocation failure / no end in sight
+    return prefer_open(kids)
 
 
 _LOOPWORD = re.compile(r"\b(while|until|for|select)\b")
@@ -641,8 +690,13 @@ def bash_terminates(script, timeout=5):
     stops early with an error (a mutant that bash rejects as a syntax error may legitimately loop forever in brush,
     which accepts e.g. extglob patterns that bash does not)"""
     try:
-        p = subprocess.run(["/usr/bin/bash", "-c", script], stdin=subprocess.DEVNULL, stdout=subprocess.DEVNULL,
-                           stderr=subprocess.DEVNULL, timeout=timeout, cwd=os.path.join(core.SCRATCH, "c01-cwd"), preexec_fn=_limit)
+        p = subprocess.Popen(["/usr/bin/bash", "-c", script], stdin=subprocess.DEVNULL, stdout=subprocess.DEVNULL,
+                             stderr=subprocess.DEVNULL, cwd=os.path.join(core.SCRATCH, "c01-cwd"), preexec_fn=_limit(20),
+                             start_new_session=True)
+        try:
+            p.communicate(timeout=timeout)
+        finally:
+            _killpg(p)
         if p.returncode != 0 and _LOOPWORD.search(script):
             return False
         return True
@@ -663,7 +717,7 @@ def run_vbrush(ctx, scripts, timeout=10, jobs=None):
 
     def one(i):
         p = subprocess.Popen([ctx.vbrush, "--norc", "--noprofile", "-c", scripts[i]], stdin=subprocess.DEVNULL,
-                             stdout=subprocess.DEVNULL, stderr=subprocess.PIPE, cwd=work, env=env, preexec_fn=_limit,
+                             stdout=subprocess.DEVNULL, stderr=subprocess.PIPE, cwd=work, env=env, preexec_fn=_limit(30),
                              start_new_session=True)
         try:
             _, err = p.communicate(timeout=timeout)
@@ -675,6 +729,7 @@ def run_vbrush(ctx, scripts, timeout=10, jobs=None):
             p.communicate()
             res[i] = ("T",)
             return
+        _killpg(p)
         err = err.decode("utf-8", "replace")
         m = re.search(r"panicked at ([^\n]*?):(\d+):\d+:\n?([^\n]*)", err)
         if m or p.returncode in (101, 134):
